@@ -1194,7 +1194,7 @@ class CSSSerializer:
         If "all" is in the list, every other media *except* "handheld" will
         be stripped. This is because how Opera handles CSS for PDAs.
         """
-        if len(medialist) == 0:
+        if medialist.length == 0:  # no medium, maybe comments only
             return 'all'
         else:
             seq = medialist.seq
